@@ -450,6 +450,30 @@ func runC07(r *vk.Run) {
 			c.Fail(key, text+": "+m, det())
 			return
 		}
+		if c.Idx%4 == 1 {
+			// every record twice (same instant, same bytes, same labels): rewriting stages may make lines and
+			// label sets equal, they never make two records one
+			var twice []Rec
+			for _, rec := range ds.Recs {
+				twice = append(twice, rec, rec)
+			}
+			res2, err := evalQuery(&MemQuerier{Recs: twice, ErrAfter: -1}, text, logRangeParams(n))
+			c.Eval(1)
+			n1, n2 := 0, 0
+			for _, st := range res.Streams {
+				n1 += len(st.Entries)
+			}
+			for _, st := range res2.Streams {
+				n2 += len(st.Entries)
+			}
+			if err != nil || n2 != 2*n1 {
+				d := det()
+				d["result_over_doubled_records"] = res2
+				c.Fail("", fmt.Sprintf("%s: %d entries for the records, %d for every record twice (err=%v)", text, n1, n2, err), d)
+				return
+			}
+			c.Count("doubled_record_evaluations", 1)
+		}
 		if c.Idx%3 == 0 {
 			// the same pipeline below a range aggregation (model-free): the metric path runs the stages the log
 			// path runs, so bytes_over_time adds up the lines the log query renders and count_over_time counts
